@@ -5,7 +5,7 @@ CONSTANTS
   UNames3 <- UNone
   MaxLen = 3
   ArgsOne <- AOneAll
-  ArgsPair <- APairAll
+  ArgsPair <- APairT
 INVARIANT TypeOK
 INVARIANT RefPartial
 INVARIANT ImplAgrees
